@@ -100,13 +100,13 @@ Definition tmp_only (s s' : state) (tmp : path) : Prop :=
 
 Record writing (s s' : state) (tmp : path) (d : str) (m : N) : Prop := {
   wr_only : tmp_only s s' tmp;
-  wr_tmp : lookup tmp (st_fs s') = Some (mkfile d m);
+  wr_tmp : lookup tmp (st_fs s') = Some (mkfile KReg d m);
   wr_fd : fd_lookup 0 (st_fds s') = Some (Some tmp)
 }.
 
 Record closed (s s' : state) (tmp : path) (d : str) (m : N) : Prop := {
   cl_only : tmp_only s s' tmp;
-  cl_tmp : lookup tmp (st_fs s') = Some (mkfile d m)
+  cl_tmp : lookup tmp (st_fs s') = Some (mkfile KReg d m)
 }.
 
 Lemma tmp_only_refl s tmp : tmp_only s s tmp.
@@ -159,7 +159,7 @@ Qed.
 Lemma step_rename_tmp s s' tmp f d m :
   closed s s' tmp d m -> tmp <> f ->
   snd (step s' (Rename tmp f)) = None /\
-  lookup f (st_fs (fst (step s' (Rename tmp f)))) = Some (mkfile d m) /\
+  lookup f (st_fs (fst (step s' (Rename tmp f)))) = Some (mkfile KReg d m) /\
   lookup tmp (st_fs (fst (step s' (Rename tmp f)))) = None /\
   (forall p, p <> tmp -> p <> f -> lookup p (st_fs (fst (step s' (Rename tmp f)))) = lookup p (st_fs s)).
 Proof.
@@ -227,7 +227,7 @@ Section OneSave.
   Qed.
 
   Lemma exec_save_all :
-    lookup f (st_fs (exec (save_ops s f new) s)) = Some (mkfile new final_mode) /\
+    lookup f (st_fs (exec (save_ops s f new) s)) = Some (mkfile KReg new final_mode) /\
     lookup tmp (st_fs (exec (save_ops s f new) s)) = None /\
     (forall p, p <> tmp -> p <> f -> lookup p (st_fs (exec (save_ops s f new) s)) = lookup p (st_fs s)).
   Proof.
@@ -434,7 +434,7 @@ Proof. intro H. apply (exec_save_all s f new H). Qed.
 Theorem save_preserves_mode : forall (s : state) (f : path) (new : str) (old : file),
   lookup (tmp_name f) (st_fs s) = None -> lookup f (st_fs s) = Some old ->
   let s' := exec (save_ops s f new) s in
-  lookup f (st_fs s') = Some (mkfile new (f_mode old)) /\ lookup (tmp_name f) (st_fs s') = None.
+  lookup f (st_fs s') = Some (mkfile KReg new (f_mode old)) /\ lookup (tmp_name f) (st_fs s') = None.
 Proof.
   intros s f new old Hfree Hold. destruct (exec_save_all s f new Hfree) as [H1 [H2 _]].
   unfold final_mode in H1. rewrite Hold in H1. split; [exact H1|exact H2].
@@ -487,12 +487,12 @@ Definition trunc_tmp_crash_atomic : Prop :=
 
 Definition ug_a : path := [97].
 Definition ug_state : state :=
-  mkstate [(ug_a, mkfile [111] 420); (tmp_name ug_a, mkfile [112; 114; 101] 420)] [] 18.
+  mkstate [(ug_a, mkfile KReg [111] 420); (tmp_name ug_a, mkfile KReg [112; 114; 101] 420)] [] 18.
 
 Lemma trunc_tmp_refuted : ~ trunc_tmp_crash_atomic.
 Proof.
   intro H. specialize (H ug_state ug_a [110] (firstn 1 (trunc_tmp_ops ug_a [110])) (crash_prefix _ 1)).
-  destruct (H (tmp_name ug_a) (mkfile [112; 114; 101] 420) eq_refl) as [f1 [Hl Hin]].
+  destruct (H (tmp_name ug_a) (mkfile KReg [112; 114; 101] 420) eq_refl) as [f1 [Hl Hin]].
   vm_compute in Hl. inversion Hl; subst f1. vm_compute in Hin.
   destruct Hin as [Hin|[]]. discriminate.
 Qed.
@@ -520,6 +520,6 @@ Proof.
   destruct Ht as [->| ->].
   - split; [left; reflexivity|]. intros f0 Hl. exists f0. auto.
   - split; [right; reflexivity|]. intros f0 Hl. unfold exec. cbn [fold_left step fst].
-    rewrite Hl. cbn [fst st_fs]. exists (mkfile (f_data f0) (N.ldiff mode 73)).
+    rewrite Hl. cbn [fst st_fs]. exists (mkfile (f_kind f0) (f_data f0) (N.ldiff mode 73)).
     rewrite lookup_set_eq. auto.
 Qed.
